@@ -340,6 +340,14 @@ def explore(ctx):
         "known_class_hits": stats["known_hits"], "block_size": B,
         "exhaustive": False,
     }
+    # store level: commits acknowledged after the repair of a damaged segment are read back at the next open
+    # (the writer of Core::new must append to the file that is on disk after the repair)
+    from . import multigen as MG
+    d = MG.directed("C12", dict(violations=[], known=[], disagreements=[], coverage={}))
+    res["violations"] += [(desc, text) for (desc, text, _) in d["violations"]]
+    res["known"] += d["known"]
+    res["coverage"]["directed_scenarios"] = d["coverage"].get("protocol_model", {}).get("directed_scenarios")
+    res["coverage"]["rule"] += "; plus the store-level scenario `repairappend` (tools/repro/multigen.py)"
     return res
 
 
